@@ -18,6 +18,9 @@ package graphsync
 //@   lock lk guards m
 //@ type Transport
 //@   nonnil gs, requestIDToChannelID, dtChannels
+//@   invariant [known-extensions] {C16} forall i int :: 0 <= i && i < len(self.supportedExtensions) ==> (self.supportedExtensions[i] == extension.ExtensionIncomingRequest1_1 ||
+//@       self.supportedExtensions[i] == extension.ExtensionOutgoingBlock1_1 || self.supportedExtensions[i] == extension.ExtensionDataTransfer1_1)
+//@       -- configuration validity (assumed of the SupportedExtensions option): only extension names this module can decode are configured
 //@   lock dtChannelsLk guards dtChannels
 //@   invariant dtChannelsLk [tracked-nonnil] {C16,C20} forall k datatransfer.ChannelID :: has(self.dtChannels, k) ==> self.dtChannels[k] != nil
 //@ type dtChannel
@@ -128,7 +131,8 @@ package graphsync
 //@ func (*graphsync.Transport).processExtension {C05,C16}
 //@   acquires {C20} channels.progressCache.lk, graphsync.Transport.dtChannelsLk, graphsync.dtChannel.lk, graphsync.dtChannel.optionsLk, graphsync.requestIDToChannelIDMap.lk, registry.Registry.registryLk, transportoptions.TransportOptions.optionsLk
 //@   requires gsMsg != nil && t.events != nil
-//@   after GetTransferData [decoders-are-FromIPLD] $r1 == nil && $r0 != nil ==> ($r0.IsRequest() ? implements($r0, datatransfer.Request) : implements($r0, datatransfer.Response))
+//@   requires [known-extensions] forall i int :: 0 <= i && i < len(exts) ==> (exts[i] == extension.ExtensionIncomingRequest1_1 ||
+//@       exts[i] == extension.ExtensionOutgoingBlock1_1 || exts[i] == extension.ExtensionDataTransfer1_1)
 //@   ensures [no-extension] calls(GetTransferData) == 1 && ret(GetTransferData, 0) == nil ==> never(EventsHandler.OnRequestReceived) && never(EventsHandler.OnResponseReceived)
 //@   ensures [role-req] all(EventsHandler.OnRequestReceived, $1 == chid && $2 == ret(GetTransferData, 0) && ret(GetTransferData, 0).IsRequest() &&
 //@       chid == datatransfer.ChannelID{ID: ret(GetTransferData, 0).TransferID(), Initiator: p, Responder: t.peerID})
@@ -310,7 +314,6 @@ package graphsync
 //@   ensures [pause-asked-is-paused] {C16,C08} (calls(EventsHandler.OnRequestReceived) == 1 && ret(EventsHandler.OnRequestReceived, 1) == datatransfer.ErrPause) ||
 //@       (calls(EventsHandler.OnResponseReceived) == 1 && ret(EventsHandler.OnResponseReceived, 0) == datatransfer.ErrPause) ==>
 //@       calls(IncomingRequestHookActions.PauseResponse) == 1 || calls(IncomingRequestHookActions.TerminateWithError) >= 1 -- (terminated only when the reply message cannot be encoded)
-//@   after GetTransferData [decoders-are-FromIPLD] $r1 == nil && $r0 != nil ==> ($r0.IsRequest() ? implements($r0, datatransfer.Request) : implements($r0, datatransfer.Response))
 //@   modifies ret(Transport.trackDTChannel, 0).xferStarted, ret(Transport.trackDTChannel, 0).isOpen, ret(Transport.trackDTChannel, 0).pendingExtensions,
 //@       ret(Transport.trackDTChannel, 0).requestID, ret(Transport.trackDTChannel, 0).requesterCancelled
 //@   acquires {C20} channels.progressCache.lk, graphsync.Transport.dtChannelsLk, graphsync.dtChannel.lk, graphsync.dtChannel.optionsLk, graphsync.requestIDToChannelIDMap.lk, registry.Registry.registryLk, transportoptions.TransportOptions.optionsLk
